@@ -19,52 +19,52 @@ def Wf' (a : Arr α) : Prop := a.data.length = size a.shape ∧ ∀ v ∈ a.shap
 /-! ## the two monomorphic entries do not matter (except for sum, f2, f3, f4) -/
 
 theorem mono_independent_S (a : Arr α) (h : Wf' a) (p q : α) : segregating (setMono a p q).data = segregating a.data := by
-  sorry
+  exact sr_segregating_setMono a.data p q
 
 theorem mono_independent_pi (a : Arr α) (h : Wf' a) (p q : α) : statPi (setMono a p q).data = statPi a.data := by
-  sorry
+  exact sr_thetaEstimate_setMono _ a.data p q
 
 theorem mono_independent_theta (a : Arr α) (h : Wf' a) (p q : α) : statTheta (setMono a p q).data = statTheta a.data := by
-  sorry
+  exact sr_thetaEstimate_setMono _ a.data p q
 
 theorem mono_independent_tajimaD (a : Arr α) (h : Wf' a) (p q : α) :
     (dTajima (setMono a p q).data).num = (dTajima a.data).num ∧ (dTajima (setMono a p q).data).var = (dTajima a.data).var := by
-  sorry
+  simp only [setMono, sr_dTajima_setMono, and_self]
 
 /-- (for a one-population spectrum of at least two chromosomes the singleton class is not a monomorphic entry) -/
 theorem mono_independent_fuLiD (a : Arr α) (h : Wf' a) (h3 : 3 ≤ a.data.length) (p q : α) :
     (dFuLi (setMono a p q).data).map (fun d => (d.num, d.var)) = (dFuLi a.data).map (fun d => (d.num, d.var)) := by
-  sorry
+  simp only [setMono, sr_dFuLi_setMono a.data p q h3]
 
 theorem mono_independent_pixy (a : Arr α) (h : Wf' a) (h2 : a.shape.length = 2) (p q : α) :
     statPiXY (setMono a p q) = statPiXY a := by
-  sorry
+  exact sr_statPiXY_setMono a h.1 h.2 h2 p q
 
 theorem mono_independent_fst (a : Arr α) (h : Wf' a) (h2 : a.shape.length = 2) (p q : α)
     (hs : sumList a.data ≠ 0) (hs' : sumList (setMono a p q).data ≠ 0) :
     statFst (normalized (setMono a p q)) = statFst (normalized a) := by
-  sorry
+  exact sr_statFst_setMono a p q hs hs'
 
 theorem mono_independent_king (a : Arr α) (h : Wf' a) (h33 : a.shape = [3, 3]) (p q : α) :
     statKing (setMono a p q) = statKing a ∧ statR0 (setMono a p q) = statR0 a ∧ statR1 (setMono a p q) = statR1 a := by
-  sorry
+  exact sr_king_setMono a (by rw [h.1, h33]; rfl) p q
 
 /-! ## swapping the two populations -/
 
 theorem swap_invariant_f2 (a : Arr α) (h : Wf' a) (h2 : a.shape.length = 2) :
     statF2 (normalized (swapPops a)) = statF2 (normalized a) := by
-  sorry
+  exact sr_statF2_swap a h.1 h.2 h2
 
 theorem swap_invariant_fst (a : Arr α) (h : Wf' a) (h2 : a.shape.length = 2) :
     statFst (normalized (swapPops a)) = statFst (normalized a) := by
-  sorry
+  exact sr_statFst_swap a h.1 h.2 h2
 
 theorem swap_invariant_pixy (a : Arr α) (h : Wf' a) (h2 : a.shape.length = 2) : statPiXY (swapPops a) = statPiXY a := by
-  sorry
+  exact sr_statPiXY_swap a h.1 h.2 h2
 
 theorem swap_invariant_king (a : Arr α) (h : Wf' a) (h33 : a.shape = [3, 3]) :
     statKing (swapPops a) = statKing a ∧ statR0 (swapPops a) = statR0 a ∧ statR1 (swapPops a) = statR1 a := by
-  sorry
+  exact sr_king_swap a h33
 
 /-! ## scaling by a non-zero constant -/
 
@@ -72,13 +72,14 @@ theorem scale_free (a : Arr α) (c : α) (hc : c ≠ 0) (hs : sumList a.data ≠
     statF2 (normalized (scaleBy c a)) = statF2 (normalized a) ∧ statF3 (normalized (scaleBy c a)) = statF3 (normalized a) ∧
     statF4 (normalized (scaleBy c a)) = statF4 (normalized a) ∧ statFst (normalized (scaleBy c a)) = statFst (normalized a) ∧
     statKing (scaleBy c a) = statKing a ∧ statR0 (scaleBy c a) = statR0 a ∧ statR1 (scaleBy c a) = statR1 a := by
-  sorry
+  rw [sr_normalized_scaleBy c hc a]
+  exact ⟨rfl, rfl, rfl, rfl, sr_king_scale c hc a⟩
 
 theorem scale_linear (a : Arr α) (c : α) :
     sumList (scaleBy c a).data = c * sumList a.data ∧ segregating (scaleBy c a).data = c * segregating a.data ∧
     statPi (scaleBy c a).data = c * statPi a.data ∧ statTheta (scaleBy c a).data = c * statTheta a.data ∧
     statPiXY (scaleBy c a) = c * statPiXY a := by
-  sorry
+  exact sr_scale_linear c a
 
 /-! non-vacuity -/
 example : statFst (α := Rat) (normalized (swapPops ⟨[5, 1, 4, 2, 8, 3, 0, 7, 6, 9, 2, 1], [4, 3]⟩)) = statFst (normalized ⟨[5, 1, 4, 2, 8, 3, 0, 7, 6, 9, 2, 1], [4, 3]⟩) ∧
